@@ -1158,7 +1158,7 @@ func (c *ChannelWriter) mapDBAndCollectionName(db, collection string) (string, s
 		}
 		if sourceDB == db && (sourceCollection == "*" || collection == "") {
 			returnDB, _ = util.GetCollectionNameFromFull(target)
-			return false
+			// keep ranging: a collection-level entry takes precedence over a whole-database entry
 		}
 		return true
 	})
